@@ -323,6 +323,11 @@ func immutableHistory(run *evid.Run, h int, wrapper bool) {
 		scripted = u.LateSubjectOps(rng, u.Repos[rng.IntN(len(u.Repos))], "early")
 		run.Count(what+"/late_subject_prefixes", 1)
 	}
+	if h%16 == 5 && !wrapper {
+		// layer descriptors with every optional field
+		scripted = u.DecoratedRefsOps(rng, u.Repos[rng.IntN(len(u.Repos))], "decorated")
+		run.Count(what+"/decorated_reference_prefixes", 1)
+	}
 	if h%8 == 7 && !wrapper {
 		// references whose stated sizes are off
 		scripted = u.InexactSizeOps(rng, u.Repos[rng.IntN(len(u.Repos))], "sized")
